@@ -103,6 +103,61 @@ def run_case(case):
             run.cleanup()
 
 
+def restart_case(case):
+    """A pair installed by one daemon run, then a restart with an edited configuration (file owners naming accounts the system does not
+    know, ...) under which the renewal is due at once: whatever that run does, the pair must be consistent at the end of each attempt."""
+    plan = {'default': {'lifetimes_s': [100, LONG], 'chain_lens': [2], 'nonce_on_get': True}}
+
+    def mk(extra, delay):
+        def cfg(d, ca):
+            return S.std_config(d, ca, [{'name': 'c0', 'identifiers': S.ids('r%d.example.org' % case['i']), 'kp_reuse': case['kp_reuse'],
+                                         'key_type': case.get('key_type', 'ecdsa_p256'), 'renew_delay': delay}], global_extra=extra)
+        return cfg
+
+    def n_po(n):
+        return lambda hooks, log: len([h for h in hooks if C.hook_event(h) == 'post-operation']) >= n
+    phases = [{'cfg': mk({}, '10s'), 'stop': n_po(1), 'timeout': 60},
+              {'cfg': mk(case['edit'], '1d'), 'stop': n_po(2), 'timeout': 30, 'abort_on_timeout': False}]
+    run = S.run_phases('C03', 'r%d' % case['i'], phases, plan0=plan)
+    res = {'case': case, 'problems': [], 'fired': 0, 'attempts': 0, 'outcome': None, 'restart': True}
+    try:
+        if len(run.phases) < 2 or not S.successes(run.hooks[:run.phases[1]['hooks_from']] if len(run.phases) > 1 else run.hooks):
+            res['infra'] = 'restart case %s: the first run installed nothing' % case['label']
+            return res
+        h2 = run.hooks[run.phases[1]['hooks_from']:]
+        po = [h for h in h2 if C.hook_event(h) == 'post-operation']
+        res['attempts'] = len(po)
+        res['fired'] = 1 if po else 0
+        for k, p in enumerate(po):
+            ok = p['kv'].get('is_success') == 'true'
+            res['outcome'] = res['outcome'] or ('success' if ok else 'failure')
+            cf = p.get('cert_file') or {}
+            if cf.get('exists'):
+                if not (p.get('cert_info') or {}).get('parse_ok'):
+                    res['problems'].append(('unparseable-certificate', 'after the restart, attempt %d (%s): certificate file is not a parseable PEM chain' % (k + 1, 'reported success' if ok else 'failed')))
+                elif not p.get('pair_match'):
+                    res['problems'].append(('pair-mismatch', 'after the restart with %s, attempt %d (%s): leaf public key of the certificate file does not match the private-key file' % (
+                        case['edit'], k + 1, 'reported success' if ok else 'failed')))
+        if res['problems']:
+            res['replay_dir'] = run.dir
+        return res
+    finally:
+        if not res['problems']:
+            run.cleanup()
+
+
+def restart_cases(base):
+    edits = [{'pk_file_user': 'c03-no-such-user'}, {'pk_file_group': 'c03-no-such-group'}, {'cert_file_user': 'c03-no-such-user'},
+             {'cert_file_group': 'c03-no-such-group'}, {'pk_file_user': 'c03-no-such-user', 'cert_file_group': 'c03-no-such-group'},
+             {'pk_file_mode': 0o400}, {'cert_file_mode': 0o444, 'pk_file_mode': 0o600}]
+    out = []
+    for k, e in enumerate(edits):
+        for kp in (False, True):
+            out.append({'i': base + len(out), 'edit': e, 'kp_reuse': kp, 'kind': 'restart', 'nth': 0, 'n_ids': 1, 'pre': True,
+                        'label': 'restart:' + '+'.join(sorted(e))})
+    return out
+
+
 def single_fault_cases(tier, r):
     cases = []
     variants = [(pre, kp) for pre in (True, False) for kp in (False, True)]
@@ -166,6 +221,8 @@ def multi_fault_cases(n, r, base):
 def signature(case, cls):
     if case['kind'] == 'multi':
         return 'C03|%s|multi-fault|kp_reuse=%s' % (cls, str(case['kp_reuse']).lower())
+    if case['kind'] == 'restart':
+        return 'C03|%s|%s|kp_reuse=%s' % (cls, case['label'], str(case['kp_reuse']).lower())
     return 'C03|%s|fault@%s|kp_reuse=%s|%s' % (cls, phase_of(case['kind'], case['nth']), str(case['kp_reuse']).lower(),
                                                'preexisting-pair' if case['pre'] else 'no-pair')
 
@@ -176,10 +233,16 @@ def run(tier):
     r = C.rng('C03')
     cases = single_fault_cases(tier, r)
     cases += multi_fault_cases(40 if tier == 'quick' else 400, r, len(cases))
-    results = C.parallel(cases, run_case)
+    rcases = restart_cases(len(cases))
+    results = C.parallel(cases, run_case) + C.parallel(rcases, restart_case)
     for res in results:
         c = res['case']
+        if res.get('infra'):
+            chk.inconclusive.append(res['infra'])
+            continue
         chk.evaluations += 1
+        if res.get('restart'):
+            chk.count('restarts_with_edited_file_options')
         chk.count('attempts_observed', res['attempts'])
         if res.get('timed_out'):
             chk.count('scenarios_timed_out')
@@ -201,7 +264,7 @@ def run(tier):
     chk.exhaustive = (tier == 'thorough')
     chk.rule = ('single faults: (request position of a 1- and 3-identifier issuance) x (fault action: 26 ACME error types, '
                 'non-JSON/empty 4xx/5xx, connection cuts, header and field damage, invalid statuses, non-PEM bodies, forgotten account) '
-                'x (pre-existing pair) x (kp_reuse)%s; plus random multi-fault sequences; distinct = tuples whose fault the CA logged as fired'
+                'x (pre-existing pair) x (kp_reuse)%s; plus random multi-fault sequences; well-formed chains whose leaf holds another valid key (opposite EC point, fresh key); restarts with edited file owner / mode options (unknown user and group names) before a due renewal; distinct = tuples whose fault the CA logged as fired'
                 % ('' if tier == 'thorough' else ' (quick: stratified sample)'))
     chk.assumptions = ['pair consistency judged by OpenSSL parsing in hookrec / vtool', 'attempt = directory fetch .. post-operation hook']
     rc = chk.finish()
@@ -215,7 +278,7 @@ def replay(path):
     w = json.load(open(path if path.endswith('.json') else os.path.join(path, 'witness.json')))
     C.build(('harness', 'b1'))
     case = w['witness']['case']
-    res = run_case(case)
+    res = restart_case(case) if case.get('kind') == 'restart' else run_case(case)
     print(json.dumps(res['problems'], indent=1))
     if res.get('replay_dir'):
         C.rmtree(res['replay_dir'])
